@@ -3,6 +3,7 @@ package actor
 // C19 — auto-play for an unresponsive player never volunteers chips.
 
 import (
+	"encoding/json"
 	"time"
 
 	"github.com/weedbox/pokertable"
@@ -119,6 +120,22 @@ func VH_C19_AutoPlay() {
 				pr.timebank.Cancel()
 				verifrt.Assert(len(ad.calls) == 0 && !pr.timebank.ModelArmed(), "cancelled timer: no move")
 			} else {
+				if verifrt.Bool("laterView") {
+					// while the countdown runs another view arrives that does not ask the player anew: a
+					// late duplicate of an older state, or a newer state in which it is somebody else's
+					// turn. The countdown goes on and still decides on the state the request was made for.
+					raw, _ := json.Marshal(t)
+					var t2 pokertable.Table
+					verifrt.Assert(json.Unmarshal(raw, &t2) == nil, "snapshot copies")
+					g2 := t2.State.GameState
+					g2.UpdatedAt = verifrt.Int64("updatedAt2")
+					g2.Status.CurrentEvent = vhEvents[verifrt.IntRange("event2", 0, len(vhEvents)-1)]
+					g2.Players[gi].AllowedActions = vhShapes[verifrt.IntRange("shape2", 0, len(vhShapes)-1)]
+					verifrt.Assume(g2.UpdatedAt <= gs.UpdatedAt || len(g2.Players[gi].AllowedActions) == 0)
+					armed1 := pr.timebank.ModelArmedCount()
+					verifrt.Assert(ad.UpdateTableState(&t2) == nil, "later view accepted")
+					verifrt.Assert(len(ad.calls) == 0 && pr.timebank.ModelArmed() && pr.timebank.ModelArmedCount() == armed1, "a view that does not ask the player anew neither acts nor restarts the countdown")
+				}
 				fired := pr.timebank.ModelFire()
 				verifrt.Assert(fired, "timer fires")
 				checkAuto(0)
